@@ -76,13 +76,17 @@ def host_calls(res, rnd, n, broken_model, prop):
         variants.append(("bad-arity", good + [("i", 1)]))
         if ps:
             variants.append(("bad-arity", good[:-1]))
+        # a third of the functions are DECLARED under the name of their own first parameter (`p0 := (p0: T, ..) ..`):
+        # the parameter shadows the function's name on every call path
+        declared = rnd.random() < 0.34
         for kind, args in variants:
             asrc = A.src(("array", args))
-            lines.append("call\tstd\t%s\t%s" % (esc_field(fsrc), esc_field(asrc)))
+            fexpr = "p0 := %s; p0" % fsrc if declared else fsrc
+            lines.append("call\tstd\t%s\t%s" % (esc_field(fexpr), esc_field(asrc)))
             # the same call written in the language
-            inlang = "f := %s; f(%s)" % (fsrc, ", ".join(A.src(a) for a in args))
+            inlang = ("p0 := %s; p0(%s)" if declared else "f := %s; f(%s)") % (fsrc, ", ".join(A.src(a) for a in args))
             lines.append("prog\tstd\t" + esc_field(inlang))
-            metas.append((kind, fsrc, asrc, inlang))
+            metas.append((kind, fexpr, asrc, inlang))
     out = harness_run(lines)
     res.streams["host-calls"] = dict(calls=len(metas))
     for k, m in enumerate(metas):
